@@ -43,7 +43,7 @@ Section B.
       | FGaussian => s_mean V s = l_gl_mean V L (fst l) (snd l) /\ s_sigma V s = l_gl_sigma V L (fst l) (snd l) /\
                      l_neg_sigma V L (s_sigma V s) = false /\ s_lo V s = l_ninf V L /\ s_hi V s = l_pinf V L
       | FLogUniform => s_lo V s = l_lu_lo V L (fst l) /\ s_hi V s = l_lu_hi V L (snd l)
-      | FLogGaussian => False
+      | FLogGaussian => s_lo V s = l_pl_lo V L (fst l) (s_lo V old) /\ s_hi V s = l_pl_hi V L (snd l) (s_hi V old)
       end.
   Proof. apply derive_limits_shape. Qed.
 
